@@ -83,6 +83,18 @@ class NoneObject:
     def __len__(self):
         return 0
 
+    def _missing(a, *args):
+        return a
+
+    # Arithmetic on, and attributes of, a missing field are missing as well, so that a comparison on them is False too
+    __add__ = __radd__ = __sub__ = __rsub__ = __mul__ = __rmul__ = __truediv__ = __rtruediv__ = _missing
+    __mod__ = __rmod__ = __and__ = __rand__ = __or__ = __ror__ = _missing
+
+    def __getattr__(self, name):
+        if name.startswith("__"):
+            raise AttributeError(name)
+        return self
+
 
 NONE_OBJECT = NoneObject()
 
@@ -623,7 +635,7 @@ class RecordContextMatcher:
             left = self.eval(node.left)
             right = self.eval(node.right)
             if isinstance(left, NoneObject) or isinstance(right, NoneObject):
-                return False
+                return NONE_OBJECT
             return AST_OPERATORS[type(node.op)](left, right)
         elif isinstance(node, ast.UnaryOp):
             return AST_OPERATORS[type(node.op)](self.eval(node.operand))
